@@ -7,6 +7,10 @@ ids = [p["id"] for p in props]
 
 # id -> (technique, level text, level note, design ref)
 claimed = {
+ "C17": ("single-fault enumeration on top of explicit-state exploration: for every explored state and every public operation with an error result, the storage calls of the operation are counted and the operation is re-executed once per call index with exactly that call failing (thorough: also every pair for small read operations)",
+         "For every state of a bounded exploration (cache 0, fast index on/off, small flush threshold) and every operation in {Get, Has, GetWithIndex, GetByIndex, Iterate, Iterator(+Error/Close), GetProof, GetVersioned, GetVersionedProof, GetImmutable+reads, ImmutableTree.Iterator, Export/Next, TraverseStateChanges, SaveVersion, DeleteVersionsTo, LoadVersion, LoadVersionForOverwriting, Load / first open with the index}: for every storage-call index, the operation reports an error through one of its error channels or returns exactly the fault-free result; a write operation under a fault never reports success unless the database reopens to the post-state, and otherwise reopens to the pre- or post-state.",
+         "One failing call per execution (pairs in thorough) instead of random multi-fault sequences. Bounded: depth 4 (quick) / 6 (thorough), 3 keys, <= 3 versions.",
+         "DESIGN.md §4 C17"),
  "C05": ("crash-point enumeration on top of explicit-state exploration: for every explored state and every interruptible operation, every prefix of the operation's physical write sequence is materialised, reopened and compared with the crash-free pre/post states; then the operation is repeated",
          "For every state of a bounded exploration (3 keys, values long enough that commits and index builds of 2-3 keys span several flushes) and every enabled SaveVersion / DeleteVersionsTo(n) / LoadVersionForOverwriting(v) / first open with the fast index: all cuts 0..m between consecutive physical writes, flush thresholds {150,250,400,1000,default}, fast on/off, each image reopened with the index on and off: Load succeeds, the image equals the crash-free pre- or post-state on every read path (tree walk, index, iteration, hashes), and repeating the operation reaches the crash-free result.",
          "Fault model of the statement (atomic ordered batch writes). Import commits are covered by C10/C17. Bounded: depth 5 (quick) / 7 (thorough), <= 4 versions.",
